@@ -1345,6 +1345,14 @@ impl World for StakingWorld {
             _ => {
                 let unb_u = Self::unbonds_of(&s, u);
                 let anyp = pos_u.first().cloned();
+                // several unbond tokens in ONE unbondFarm call (the endpoint takes a single payment): must fail, whatever
+                // their unlock epochs — in particular an unlocked token must not carry a still-locked one out with it
+                if unb_u.len() >= 2 && rng.chance(1, 2) {
+                    let mut v = unb_u.clone();
+                    if rng.chance(1, 2) { v.reverse(); }
+                    let pays: Vec<String> = v.iter().take(3).map(|x| Self::pay(x.0, &x.1)).collect();
+                    return o(format!("bad unbondMulti {} {}", un, pays.join(" ")));
+                }
                 match rng.below(22) {
                     0 if !unb_u.is_empty() => o(format!("claim {} - {}", un, Self::pay(unb_u[0].0, &unb_u[0].1))),
                     1 if anyp.is_some() => { let p = anyp.unwrap(); o(format!("unbond {} {}", un, Self::pay(p.0, &p.1))) }
@@ -2106,6 +2114,20 @@ impl StakingWorld {
                                 let _ = sc.stake_farm_endpoint(OptionalValue::None);
                             }).result_status == 0;
                             self.b.set_esdt_balance(&ca, OTHER, &zero);
+                            ok
+                        }
+                        "unbondMulti" => {
+                            let pays = parse_pays(&w[3..])?;
+                            if pays.len() < 2 || pays.iter().any(|p| p.1.is_zero()) || !Self::kinds_ok(&pre, &pays, false) {
+                                return Some(false);
+                            }
+                            let tf = Self::transfers(None, &pays);
+                            let ok = self.b.execute_esdt_multi_transfer(&ca, &self.farm, &tf, |sc| {
+                                let _ = sc.unbond_farm();
+                            }).result_status == 0;
+                            if ok && !self.quiet {
+                                tr.fail("C12", "unbond_gate", &site, &format!("unbondFarm accepted {} unbond tokens in one call (epoch {})", pays.len(), self.epoch));
+                            }
                             ok
                         }
                         "twoPayments" => {
